@@ -1647,10 +1647,19 @@ def _modern_syntax(fn):
                     (isinstance(subj, (ast.Tuple, ast.List)) and all(_test_pure(x) for x in subj.elts))
                 tests, default = [], None
                 for i, c in enumerate(s.cases):
-                    if c.guard is not None:
-                        ok = False
-                        break
                     pat, bind = c.pattern, None
+                    if c.guard is not None:
+                        # case P if G:  ->  test(P) and G      (patterns without captures only)
+                        if any(isinstance(x, (ast.MatchAs, ast.MatchStar)) and getattr(x, 'name', None) for x in ast.walk(pat)):
+                            ok = False
+                            break
+                        t = pattern_test(subj, pat) if not (isinstance(pat, ast.MatchAs) and pat.pattern is None) else ast.Constant(value=True)
+                        if t is None:
+                            ok = False
+                            break
+                        t = c.guard if isinstance(t, ast.Constant) else ast.BoolOp(op=ast.And(), values=[t, c.guard])
+                        tests.append((t, c.body))
+                        continue
                     if isinstance(pat, ast.MatchAs) and pat.pattern is not None and pat.name is not None and isinstance(subj, (ast.Name, ast.Attribute)):
                         pat, bind = pat.pattern, c.pattern.name
                     if isinstance(pat, ast.MatchAs) and pat.pattern is None and pat.name is None:
